@@ -42,7 +42,7 @@ def run(ctx):
     thms = ctx.build_and_audit(["NutsProofs.Props.C13"])
     required = ["fact_sweep_threshold", "fact_transaction_helper_shape", "fact_rollback_deletes_created_did",
                 "fact_nuts_not_found_is_uncommitted", "fact_web_commit_cannot_fail", "fact_version_is_latest_plus_one",
-                "old_iscommitted_blocks_sweep", "old_rollback_blocks_retry"]
+                "fact_sweep_handles_whole_transaction", "old_iscommitted_blocks_sweep", "old_rollback_blocks_retry", "old_sweep_splits_transaction"]
     required += REQUIRED_DEEP
     for r in required:
         if not any(t.endswith("Props." + r) for t in thms):
@@ -58,12 +58,12 @@ def run(ctx):
     ]
     ctx.assumptions += [
         "no operation stays in flight (between its first transaction and its clean-up transaction) across a sweep that already considers it old, i.e. longer than the sweep threshold (60 s): "
-        "Rollback would delete the versions and the late Commit would still publish them (witness kept in Props/C13.lean as example `in_flight_longer_than_threshold`, not claimed)",
+        "Rollback would delete the versions and the late Commit would still publish them (witness kept in Props/C13.lean as the last example, not claimed)",
         "after a process stop no new operation is started on a subject while change records of that subject remain (the sweep runs first): otherwise the new version is built on the "
-        "uncommitted one (witness `busy_after_stop_breaks_consecutive`, not claimed; the correspondence harness still compares model and code on such schedules)",
+        "uncommitted one (witness: the example before the last in Props/C13.lean, not claimed; the correspondence harness still compares model and code on such 'busy' schedules)",
         "updates are not issued to a deactivated subject (didnuts onUpdate silently skips publishing: 'should not occur'); one DID per method per subject "
         "(Create is the only operation that adds DIDs; migrations are out of scope)",
-        "all versions written by one first transaction carry the same updated_at second (CreateOrUpdate reads the clock per DID); the sweep only runs when vdr.Start starts it, i.e. when did:nuts is enabled",
+        "the sweep only runs when vdr.Start starts it, i.e. when did:nuts is enabled (a did:web-only node keeps the change records of a stopped operation; its documents are served from SQL, so nothing diverges)",
         "SQL transactions are atomic and serialised; deleting a did / version row cascades as declared in 003_did.sql",
     ]
 
@@ -150,7 +150,13 @@ def run(ctx):
             sid = ":".join(tag[2:])
             b = j + 1                       # index of the faulty event
             bad_op, bad_obs = w["ops"][b], obs[b]
-            pre, post = obs[j], obs[b + 4]  # before the operation / after the sweep past the threshold
+            sweeps = [k for k in range(b + 1, len(obs)) if w["ops"][k]["op"] == "sweep"]
+            if len(sweeps) < 2:
+                continue
+            pi = sweeps[1]                  # the sweep past the threshold
+            pre, post = obs[j], obs[pi]     # before the operation / after that sweep
+            if any(op["op"] == "skew" for op in w["ops"]):
+                stats["world:quiet+skew"] += 1
             if post[1] != 0 or obs[-1][1] != 0:
                 report("C13:changelog-remains-after-sweep", f"{post[1]} change records remain after the rollback sweep (fault {bad_op.get('fault')} k={bad_op.get('k')} on {bad_op['kind']})", w)
             fired = bad_op.get("fault", "none") != "none"
@@ -170,7 +176,7 @@ def run(ctx):
                         report("C13:abandoned-change-visible-after-sweep", f"subject {sname}: before {before} after sweep {vq[sname]} ({bad_op['kind']}, fault {bad_op.get('fault')} k={bad_op.get('k')})", w)
                 # keys of the abandoned version never show up again
                 new_keys = key_labels(bad_obs) - set().union(*[key_labels(o) for o in obs[:b]]) if b > 0 else key_labels(bad_obs)
-                for k2 in range(b + 4, len(obs)):
+                for k2 in range(pi, len(obs)):
                     seen = new_keys & key_labels(obs[k2])
                     if seen:
                         report("C13:abandoned-key-visible", f"keys {sorted(seen)} of the abandoned version visible at event {k2}", w)
@@ -179,7 +185,7 @@ def run(ctx):
                 pw = plain.get(sid)
                 if pw is not None and all(o is not None for o in pw["obs"]):
                     want = [o[0] for o in pw["obs"][1 + j:]]
-                    got = [o[0] for o in obs[b + 5:]]
+                    got = [o[0] for o in obs[pi + 1:]]
                     if want != got:
                         sig = "C13:retry-fails-after-rollback" if want[:1] != got[:1] else "C13:later-operation-differs-after-rollback"
                         report(sig, f"results after the sweep {got} but {want} without the fault ({bad_op['kind']}, fault {bad_op.get('fault')} k={bad_op.get('k')})", w)
